@@ -89,8 +89,7 @@ def foldOf (item : Char) (j : Nat) (raw : String) : Out (Fold Nat Float) :=
   | _ => if raw.startsWith "{" then .ok ⟨true, 1.0, none, j⟩ else .ok ⟨false, 0.0, some "all strategies failed", j⟩
 
 /-- environment state of a heal object: the scripts and call counters of its callbacks and the public attributes
-    `max_retries` / `confidence_decay` as last assigned (by the caller between calls, or by the generator itself:
-    script item `r` sets `loop.max_retries = 0`, `R` adds 2 to it, then both return garbage) -/
+    `max_retries` / `confidence_decay` as last assigned -/
 structure HSt where
   g : Nat := 0
   f : Nat := 0
@@ -101,9 +100,7 @@ structure HSt where
 
 def healAdvD : HealAdv HSt Nat Float where
   gen s _ ctx :=
-    let item := pick s.gs s.g 'g'
-    let mr' := if item = 'r' then 0 else if item = 'R' then s.mr + 2 else s.mr
-    ({ s with g := s.g + 1, mr := mr' }, genRaw item s.g ctx)
+    ({ s with g := s.g + 1 }, genRaw (pick s.gs s.g 'g') s.g ctx)
   fold s raw := ({ s with f := s.f + 1 }, foldOf (pick s.fs s.f 'A') s.f raw)
 
 def healObjD : HealObj HSt Nat Float where
@@ -389,6 +386,8 @@ def step (st : DSt) (toks : List String) : DSt × String :=
     let r := toolLine st.nlog mi ae hs ha ps ts cs
     ({ st with nlog := r.1 }, r.2 ++ " tool:live")
   | ["retools", _, _, _] => (st, "ok")   -- re-entrant tool adversary: judged by the harness oracle only
+  | ["hre", _, _, _] => (st, "ok")       -- generator that re-assigns loop.max_retries while heal runs: oracle only
+  | ["sre", _, _, _, _] => (st, "ok")    -- factory / worker that re-assign the swarm budgets while supervise runs: oracle only
   | _ => (st, "bad-op")
 
 def main : IO Unit := runDriver ({} : DSt) step
